@@ -4,13 +4,13 @@ from __future__ import annotations
 import json
 
 from harness.framework import Violation
-from harness.seqprop import SeqProp, slots_of
+from harness.seqprop import indep_fall, SeqProp, slots_of
 from pulser import Pulse
 from pulser.sequence._schedule import _ChannelSchedule
 
 
 def fall(cs, slot):
-    return slot.type.fall_time(cs.channel_obj, in_eom_mode=cs.in_eom_mode())
+    return indep_fall(slot.type, cs.channel_obj, cs.in_eom_mode())
 
 
 def round_delay(ch, delta):
@@ -107,7 +107,7 @@ class C03(SeqProp):
                             break
                     if lps is not None and float(lps.type.phase) != float(new.type.phase) and not op.get("correct"):
                         ie = cs.in_eom_mode()
-                        pjb = max(ch.phase_jump_time, 2 * ch.rise_time * ie) + lps.type.fall_time(ch, in_eom_mode=ie) - (t0 - lps.tf)
+                        pjb = max(ch.phase_jump_time, 2 * ch.rise_time * ie) + indep_fall(lps.type, ch, ie) - (t0 - lps.tf)
                     if not op.get("correct"):
                         want = t0 + round_delay(ch, max(e - t0, pjb))
                         if ti < want:
